@@ -4,6 +4,9 @@ import json, os, subprocess
 V = os.path.dirname(os.path.dirname(os.path.abspath(__file__)))
 props = [json.loads(l) for l in open(os.path.join(V, "properties.jsonl"))]
 CLAIMS = json.load(open(os.path.join(V, "tools", "claims.json")))
+import glob
+for f in sorted(glob.glob(os.path.join(V, "tools", "claims.d", "*.json"))):
+    CLAIMS[os.path.basename(f)[:-5]] = json.load(open(f))
 hooks_commits = []
 try:
     out = subprocess.run(["git", "-C", "/repo", "log", "--format=%H %s"], capture_output=True, text=True).stdout
